@@ -1,5 +1,6 @@
 import HkModel.Proofs.InvStep
 import HkModel.Proofs.C03Model
+import HkModel.Proofs.C04Model
 import HkModel.Proofs.C05Model
 import HkModel.Proofs.C12Model
 import HkModel.Proofs.C14Model
@@ -20,11 +21,9 @@ structure TStep where
   op : Op
   ch : Choice
 
-/-- Operations the implementation's API can express, as the harness issues them: there is no batch
-    `extend`, and single-lease calls on the memory backend carry the lease id verbatim (no padding). -/
-def OpWF (c : Cfg) (op : Op) : Prop :=
-  (∀ d ls, op = .leaseBatch (.extend d) ls → 0 ≤ d) ∧
-  (c.memory = true → ∀ d l0, op = .lease (.nack d) l0 → trimWS l0 = l0)
+/-- Operations the implementation's API can express: `LeaseBatchStore` has no batch `extend`
+    (the model's `leaseBatch` is generic in the lease kind only for uniformity). -/
+def OpWF (_c : Cfg) (op : Op) : Prop := ∀ d ls, op ≠ .leaseBatch (.extend d) ls
 
 /-- clock values never go backwards -/
 def Monotone : Int → List TStep → Prop
@@ -41,13 +40,14 @@ def run (c : Cfg) : Q → Hist → List TStep → List (Hist × Rec)
       let rec_ := modelRec c s.now q s.op r q'
       (h, rec_) :: run c q' (C03.advance h rec_) rest
 
-/-- **Every record of every run satisfies C03, C05, C12 and C14**, from any state satisfying the invariant. -/
+/-- **Every record of every run satisfies C03, C04, C05, C12 and C14**, from any state satisfying the invariant. -/
 theorem run_ok (c : Cfg) (hsweep : 0 ≤ c.sweep) :
     ∀ (tr : List TStep) (q : Q) (h : Hist) (t0 : Int),
       Inv q → q.lastSweep ≤ t0 → 0 ≤ t0 → Monotone t0 tr → (∀ s ∈ tr, OpWF c s.op) →
       (∀ l ∈ h.issued, l ∈ q.issued) →
       ∀ hr ∈ run c q h tr,
-        C03.stepOK hr.1 hr.2 = true ∧ C05.stepOK hr.2 = true ∧ C12.stepOK hr.2 = true ∧ C14.stepOK hr.2 = true := by
+        C03.stepOK hr.1 hr.2 = true ∧ C04.stepOK' hr.2 = true ∧ C05.stepOK' hr.2 = true ∧
+        C12.stepOK hr.2 = true ∧ C14.stepOK hr.2 = true := by
   intro tr
   induction tr with
   | nil => intro q h t0 _ _ _ _ _ _ hr hmem; simp [run] at hmem
@@ -63,11 +63,12 @@ theorem run_ok (c : Cfg) (hsweep : 0 ≤ c.sweep) :
       have hwfs := hwf s (by simp)
       have h03 := P03.C03_model c s.now q q' s.op s.ch r h hinv hh hstep
       rcases hmem with rfl | hmem
-      · refine ⟨h03.1, ?_, ?_, ?_⟩
-        · exact C05_model_trimmedOp c s.now q q' s.op s.ch r hinv (by omega) hsweep hwfs.2 hstep
+      · refine ⟨h03.1, ?_, ?_, ?_, ?_⟩
+        · exact C04_model' c s.now q q' s.op s.ch r hinv (fun d ls h => absurd h (hwfs d ls)) hstep
+        · exact C05_model' c s.now q q' s.op s.ch r hinv (by omega) hsweep hstep
         · exact P12.C12_model c s.now q q' s.op s.ch r hinv hstep
         · exact P14.C14_model c s.now q q' s.op s.ch r hinv hstep
-      · have hi := inv_step c s.now q q' s.op s.ch r hinv (by omega) (by omega) hwfs.1 hstep
+      · have hi := inv_step c s.now q q' s.op s.ch r hinv (by omega) (by omega) (fun d ls h => absurd h (hwfs d ls)) hstep
         exact ih q' _ s.now hi.1 hi.2 (by omega) hmono.2 (fun x hx => hwf x (by simp [hx])) h03.2 hr hmem
 
 /-- the invariant holds in every state reachable from the empty store -/
@@ -93,7 +94,8 @@ theorem inv_reachable (c : Cfg) :
     | some p =>
       obtain ⟨q1, r⟩ := p
       simp only [hstep, Option.map_some] at h
-      have hi := inv_step c s.now q q1 s.op s.ch r hinv (by have := hmono.1; omega) (by have := hmono.1; omega) (hwf s (by simp)).1 hstep
+      have hi := inv_step c s.now q q1 s.op s.ch r hinv (by have := hmono.1; omega) (by have := hmono.1; omega)
+        (fun d ls h => absurd h (hwf s (by simp) d ls)) hstep
       exact ih q1 s.now hi.1 hi.2 (by have := hmono.1; omega) hmono.2 (fun x hx => hwf x (by simp [hx])) q' h
 
 /-! ### non-vacuity: a concrete non-trivial run whose hypotheses hold -/
@@ -109,9 +111,8 @@ def demoTrace : List TStep :=
 example : (run { maxDepth := 2 } {} {} demoTrace).length = 7 := by decide
 example : Monotone 0 demoTrace := by simp [Monotone, demoTrace]
 example : ∀ s ∈ demoTrace, OpWF { maxDepth := 2 } s.op := by
-  intro s hs
+  intro s hs d ls
   simp only [demoTrace, List.mem_cons, List.mem_nil_iff, or_false] at hs
-  rcases hs with rfl | rfl | rfl | rfl | rfl | rfl | rfl <;> refine ⟨?_, ?_⟩ <;> intros <;> simp_all
-  rename_i h; obtain ⟨_, rfl⟩ := h; decide
+  rcases hs with rfl | rfl | rfl | rfl | rfl | rfl | rfl <;> simp
 
 end Hk
